@@ -140,9 +140,12 @@ def translator_obligation(run=None, audit="bundle", timeout=200):
     res["lemmas"] = re.findall(r"^\s*Lemma\s+(gen_[\w']+)", eqv, flags=re.M)
     res["theorems"] = re.findall(r"^\s*Theorem\s+([\w']+)", props, flags=re.M)
     # every generated definition must be the subject of a lemma
-    missing = [i["coq_name"] for i in info if i["coq_name"] + "_eq" not in res["lemmas"]]
+    missing = [i["coq_name"] + "_eq" for i in info if i["coq_name"] + "_eq" not in res["lemmas"]]
+    missing += [i["coq_name"] + "_pre_eq" for i in info if i["has_precondition"] and i["coq_name"] + "_pre_eq" not in res["lemmas"]]
     if missing:
-        res.update(status="stage_error", reason=f"no equivalence lemma for generated definitions {missing}")
+        # e.g. an `assert` added to a function that had none: a new precondition is a semantic change
+        res.update(status="equivalence_broken", lemma="<missing> " + ", ".join(missing), file="MapsGenEquiv.v", line=0,
+                   coq_error="the regenerated file contains definitions for which Gen/MapsGenEquiv.v states no lemma")
         return done()
     if audit == "bundle":
         props = re.sub(r"^Print Assumptions [\w']+\.\s*$", "", props, flags=re.M)
